@@ -438,6 +438,7 @@ def run(rec, shard, nshards, t):
         idx = 0
         tmp_home = tmp
         have_pty = pseudo_terminal_available()
+        tty_pairs = tty_prompts = 0
         for item in pairs:
             shape, cmd = item[:2]
             tmp = tmp_home
@@ -468,10 +469,14 @@ def run(rec, shard, nshards, t):
             rec.count('recording_runs')
             if cmd in TTY_ANSWERS and shard == 0:
                 # the prompt was really shown (otherwise this pair observed the silent non-interactive skip, not the terminal path)
+                tty_pairs += 1
                 if ('Migrate to new format?' if cmd in FULL_TTY else 'Migrate to new layout?') not in (p.stdout or ''):
-                    rec.unsure(f'{shape}/{cmd}: the confirmation prompt was not shown (exit {p.returncode}): {(p.stdout or "")[-200:]!r}')
+                    # some budgets are legitimately not offered a migration (e.g. the settings name the CSV themselves): counted, and inconclusive only if NO pair saw a prompt
+                    rec.count('terminal_prompt_not_shown')
+                    rec.sample({'shape': shape, 'command': cmd, 'prompt_not_shown': (p.stdout or '')[-200:]})
                 else:
                     rec.count('terminal_prompts_answered')
+                    tty_prompts += 1
                     declined = cmd in ('update-tty-n', 'update-tty-eof', 'migrate-tty-n', 'migrate-tty-enter')
                     rec.count('terminal_migrations_declined' if declined else 'terminal_migrations_confirmed')
                     # (a declined `tally up` still writes its report: output/ is not part of the comparison there)
@@ -493,6 +498,8 @@ def run(rec, shard, nshards, t):
                 if idx % nshards != shard:
                     continue
                 judge_point(rec, shape, cmd, k, mode, e, baseline, tmp, log)
+        if tty_pairs and not tty_prompts:
+            rec.unsure(f'none of the {tty_pairs} terminal-driven runs showed a confirmation prompt: the terminal path was not observed')
     finally:
         shutil.rmtree(tmp_home if 'tmp_home' in dir() else tmp, ignore_errors=True)
         for d in xdirs:
